@@ -31,6 +31,8 @@ def _lim(tagname: str, l: Dict[str, Any]) -> Optional[str]:
         return None
     if k == "INFINITE":
         return og.limit(tagname, None, "INFINITE")
+    if k == "INFINITEV":
+        return og.limit(tagname, l["v"], "INFINITE")
     if k == "none":
         return og.limit(tagname, l["v"], None)
     return og.limit(tagname, l["v"], k)
